@@ -121,7 +121,9 @@ prop("C18",
      runs=[dict(name="h_hash", sources=["harness/h_hash.c"], profile="asan", args={"quick": ["--maxlen=40"], "thorough": ["--maxlen=100"]}),
            # unoptimised and -O2 builds: a load the optimiser drops at -O1 is still a read past the key in the other builds (PROT_NONE pages catch it)
            dict(name="h_hash_O0", sources=["harness/h_hash.c"], profile="plain0", args={"quick": ["--maxlen=40"], "thorough": ["--maxlen=100"]}),
-           dict(name="h_hash_O2", sources=["harness/h_hash.c"], profile="plain2", args={"quick": ["--maxlen=40"], "thorough": ["--maxlen=100"]})],
+           dict(name="h_hash_O2", sources=["harness/h_hash.c"], profile="plain2", args={"quick": ["--maxlen=40"], "thorough": ["--maxlen=100"]}),
+           # keys of 2 GiB and more (a lazily mapped region): lengths at which a byte count or a signed length wraps
+           dict(name="h_hash_huge", binary="h_hash_O2", sources=["harness/h_hash.c"], profile="plain2", args={"quick": ["--only=huge", "--hang-cpu=300"], "thorough": ["--only=huge", "--hang-cpu=300"]})],
      deadline={"quick": 120, "thorough": 1200})
 
 
